@@ -5,6 +5,7 @@ from .stmt import (
     Stmt, Block, IfBlock, VarDeclClause, ArrayDimRange, CallStmt,
     ReturnValueSetStmt, FunctionBlock, SubBlock, SimpleCaseClause,
     RangeCaseClause, CompareCaseClause, CaseElseStmt, SelectBlock,
+    DimStmt, TypeBlock, DeclareStmt,
 )
 from .expr import Type, Expr, Lvalue, NumericLiteral, FuncCall
 from .program import Label, LineNo
@@ -253,6 +254,17 @@ class Pass1(CompilePass):
                 f'{tree.node_name()} is not allowed here',
                 node=tree)
         super().process_tree(tree)
+
+    def process_var_clause_pre(self, node):
+        # "name AS type" is a statement only for the grammar of TYPE
+        # blocks; anywhere else it must be part of a declaration
+        owners = (DimStmt, TypeBlock, SubBlock, FunctionBlock,
+                  DeclareStmt)
+        if not isinstance(node.parent, owners):
+            raise CompileError(
+                EC.ILLEGAL_IN_TYPE_BLOCK,
+                'Field declaration outside TYPE block',
+                node=node)
 
     def process_label_pre(self, node):
         if node.name in self.compilation.all_labels:
